@@ -465,3 +465,243 @@ def replay_coll(d):
     if not bad: return None
     g, mode, got, want = bad[0]
     return coll_failure(atoms, proj, params, d['graph'], g, mode, got, want)
+
+
+# ---------------------------------------------------------------------------------------------- len(g.members) / count(g.members)
+# (coq/Model/C01Len.v)  query = (ws, hs, proj): ws plain conditions over g, hs conditions that mention 'group.cnt' = len(g.members)
+# (no top-level `and` in an hs item, so that each becomes one HAVING condition)
+
+LEN_HEADER = COLL_HEADER.replace('PonyV.Model.C01Coll.', 'PonyV.Model.C01Coll PonyV.Model.C01Len.')
+
+
+def len_qsrc(ws, hs, proj, fn='len'):
+    conds = [esrc(e) for e in ws] + [esrc(e, '%s(g.members)' % fn) for e in hs]
+    return 'select(%s for g in G if %s)' % ('(g.id, %s)' % esrc(proj) if proj is not None else 'g.id', ' and '.join(conds))
+
+
+def _lift_inline_count(x, found):
+    if isinstance(x, (list, tuple)) and len(x) == 3 and x[0] == 'COUNT' and x[1] is True and x[2][0] == 'COLUMN' and x[2][2].lower() == 'id' and x[2][1] != 'g':
+        found.append(x[2][1])
+        return ['COLUMN', '#', 'cnt']
+    if isinstance(x, (list, tuple)) and x and x[0] != 'PARAM': return [_lift_inline_count(y, found) for y in x]
+    return x
+
+
+def len_translate(provider, ws, hs, proj, params, fn='len'):
+    """-> (join term, WHERE term, HAVING term, column term or None, sql, dump)"""
+    from pony import orm
+    db, P, G, D = J.get_db(provider)
+    src = len_qsrc(ws, hs, proj, fn)[len('select('):-1]
+    with orm.db_session:
+        q = orm.select(src, query_globals(G, params))
+        t = q._translator
+        fa = t.sqlquery.from_ast
+        if (fa[0] != 'LEFT_JOIN' or len(fa) != 3 or fa[1][2].upper() != 'G' or fa[2][1] != 'TABLE' or fa[2][2].upper() != 'P' or len(fa[2]) != 4
+                or fa[2][3][0] != 'EQ'):
+            raise L.Unmodelled('FROM %r' % (L.strip_ast(fa),))
+        alias = fa[2][0]
+        L.COLUMN_HOOK[0] = _hook
+        try:
+            j = fa[2][3]
+            join = '(%d%%nat, %d%%nat)' % (_hook(j[1][1], j[1][2]), _hook(j[2][1], j[2][2]))
+            found = []
+            where = '[%s]' % '; '.join(L.qx(_lift_inline_count(c, found)) for c in t.conditions)
+            having = '[%s]' % '; '.join(L.qx(_lift_inline_count(c, found)) for c in t.having_conditions)
+            if any(a != alias for a in found): raise L.Unmodelled('COUNT over another alias')
+            gb = [m.getsql() for m in t.groupby_monads]
+            if not gb or [list(c[:3]) for c in gb[0]] != [['COLUMN', 'g', 'id']] and [list(c[:3]) for c in gb[0]] != [['COLUMN', 'g', 'ID']]:
+                raise L.Unmodelled('GROUP BY %r' % (L.strip_ast(gb),))
+            col = L.qx(t.expr_columns[1]) if proj is not None else None
+        finally:
+            L.COLUMN_HOOK[0] = None
+        return join, where, having, col, q.get_sql(), L.strip_ast([fa, t.conditions, t.having_conditions, t.expr_columns])
+
+
+def len_run(real, ws, hs, proj, params, raw=False, fn='len'):
+    orm = real.orm
+    src = len_qsrc(ws, hs, proj, fn)[len('select('):-1]
+    with orm.db_session:
+        q = orm.select(src, query_globals(real.G, params))
+        if raw:
+            sql, arguments, _, _ = q._construct_sql_and_arguments()
+            rows = [tuple(r) for r in real.db._exec_sql(sql, arguments).fetchall()]
+        else:
+            rows = list(q)
+    if proj is None: rows = [(r if not isinstance(r, tuple) else r[0], None) for r in rows]
+    return sorted(rows, key=lambda r: r[0])
+
+
+LEN_HANDMADE = [
+    ([], [('cmp', '>', ('attr', 'group.cnt'), ('int', 1))], None),
+    ([('cmp', '>', ('attr', 'group.number'), ('int', 0))], [('cmp', '==', ('attr', 'group.cnt'), ('int', 0))], ('attr', 'group.level')),
+    ([], [('not', ('attr', 'group.cnt'))], None),
+    ([], [('cmp', '>=', ('attr', 'group.cnt'), ('attr', 'group.number'))], ('attr', 'group.title')),
+    ([('cmp', 'is not', ('attr', 'group.level'), ('none',))], [('cmp', '<', ('arith', '+', ('attr', 'group.cnt'), ('attr', 'group.level')), ('int', 4)), ('cmp', '>', ('attr', 'group.cnt'), ('int', 0))], None),
+]
+
+
+def gen_len_queries(ctx, n):
+    rng = ctx.rng
+    g_out = L.Gen(rng, pools=OUTER_POOLS); g_cnt = L.Gen(rng, pools=COUNT_POOLS)
+    out = [(w, h, p, {}) for w, h, p in LEN_HANDMADE]
+    while len(out) < n + len(LEN_HANDMADE):
+        g_out.reset(); g_cnt.params, g_cnt.ptypes = g_out.params, g_out.ptypes
+        ws = [_gen_outer(g_out, rng, lambda: g_out.filter_expr(rng.choice((2, 3)))) for _ in range(rng.choice((0, 0, 1)))]
+        hs = []
+        for _ in range(rng.choice((1, 1, 2))):
+            for _ in range(50):
+                e = _gen_outer(g_cnt, rng, lambda: g_cnt.filter_expr(rng.choice((2, 2, 3))))
+                if 'group.cnt' in L.attrs_of(e) and e[0] != 'and': hs.append(e); break
+        if not hs: continue
+        # a ws condition must not be split off an `and` that mixes both kinds: keep ws items cnt-free (they are by their pools)
+        proj = _gen_outer(g_out, rng, lambda: g_out.value(rng.choice(('int', 'str')), rng.choice((1, 2)), True)) if rng.random() < 0.3 else None
+        out.append((ws, hs, proj, dict(g_out.params)))
+    return out
+
+
+def exprs_coq(es):
+    return '[%s]' % '; '.join(L.coq(e) for e in es)
+
+
+def len_cases(ctx, queries, real):
+    """LEFT JOIN / WHERE / HAVING / column of the real translator on four providers vs tr_len; the rows real SQLite returns vs sql_len_rows."""
+    import c01_harness as H
+    exprs, meta, dis, nontriv = [], [], [], set()
+    dist = {'shapes': 0, 'columns': 0, 'sqlite_result_lists': 0, 'translator_raises': 0}
+    for k, (ws, hs, proj, params) in enumerate(queries):
+        fn = ('len', 'count')[k % 2]
+        for prov in ('sqlite', 'postgres', 'mysql', 'oracle'):
+            if prov == 'oracle' and any(v == '' for v in params.values()): continue
+            inp = {'provider': prov, 'query': len_qsrc(ws, hs, proj, fn), 'params': params}
+            try:
+                join, where, having, col, sql, dump = len_translate(prov, ws, hs, proj, params, fn)
+            except L.Unmodelled as ex:
+                dis.append({'what': 'len(collection) query outside the modelled shape: %s' % ex, 'input': inp}); continue
+            except Exception as ex:
+                dist['translator_raises'] += 1
+                dis.append({'what': 'the real translator raised on a typed len(collection) query', 'input': inp, 'impl': '%s: %s' % (type(ex).__name__, str(ex)[:200])}); continue
+            d = L.DN[prov]
+            m = dict(inp, impl=dump)
+            exprs.append('match tr_len_raw %s %s %s with Some (w, h) => Nat.eqb (fst sub_join) (fst %s) && Nat.eqb (snd sub_join) (snd %s) && oqxs_eqb (Some w) (Some %s) && oqxs_eqb (Some h) (Some %s) | None => false end' % (
+                d, exprs_coq(ws), exprs_coq(hs), join, join, where, having))
+            meta.append(dict(m, mode='len-shape')); dist['shapes'] += 1
+            if proj is not None:
+                exprs.append('oqx_eqb (tr_project %s %s) (Some %s)' % (d, L.coq(proj), col)); meta.append(dict(m, mode='len-columns')); dist['columns'] += 1
+            nontriv.add((prov, len_qsrc(ws, hs, proj, fn)))
+            if prov == 'sqlite':
+                try:
+                    rows = len_run(real, ws, hs, proj, params, raw=True, fn=fn)
+                except Exception as ex:
+                    # an aggregate in WHERE: the model says the statement is invalid (tr_len = None) exactly then
+                    exprs.append('match tr_len DSqlite %s %s with None => true | Some _ => false end' % (exprs_coq(ws), exprs_coq(hs)))
+                    meta.append(dict(m, mode='len-invalid-statement', impl='%s: %s' % (type(ex).__name__, ex), sql=sql)); dist['sqlite_rejects'] = dist.get('sqlite_rejects', 0) + 1
+                    continue
+                exprs.append('match tr_len DSqlite %s %s with None => false | Some _ => true end' % (exprs_coq(ws), exprs_coq(hs)))
+                meta.append(dict(m, mode='len-valid-statement', sql=sql))
+                got = '[%s]' % '; '.join(H.coq_qv(v) if proj is not None else '(IntV %d)' % i for i, v in rows)
+                exprs.append('%s (sql_len_rows DSqlite %s DB %s %s %s) %s' % (J.QVS_EQB, L._coq_fn(list(params.items())), where, having, col if proj is not None else '(QCol 10)', got))
+                meta.append(dict(m, mode='len-rows', impl=rows, sql=sql)); dist['sqlite_result_lists'] += 1
+    return exprs, meta, dis, nontriv, dist
+
+
+def check_len_query(real, ws, hs, proj, params, fn='len'):
+    import c01_harness as H
+    graph = real.graph
+    got = dict(len_run(real, ws, hs, proj, params, fn=fn))
+    bad = []
+    for g in graph['G']:
+        row = g_row(g, len(members(graph, g)))
+        try:
+            keep = all(_keeps(e, row, params) for e in ws + hs)
+            want = None
+            if proj is not None:
+                if 'zero-division' in L.hazards(proj, row, params): continue
+                want = L.ref(proj, row, params, False)
+        except (Skip, L.RefError):
+            continue
+        if keep != (g['id'] in got): bad.append((g, 'filter', g['id'] in got, keep))
+        elif keep and proj is not None and not H.same_value(got[g['id']], want): bad.append((g, 'project', got[g['id']], want))
+    return bad
+
+
+def len_failure(ws, hs, proj, params, graph, g, mode, got, want, fn):
+    import c01_harness as H
+    row = g_row(g, len(members(graph, g)))
+    key = None
+    if mode == 'project': key = H.classify(proj, row, params, 'project')
+    else:
+        for e in ws + hs:
+            try: differs = L.keeps(e, row, params, False) != L.keeps(e, row, params, True)
+            except L.RefError: differs = False
+            k = H.classify(e, row, params, 'filter')
+            if differs or not k.startswith('unlisted'): key = k; break
+    if key is None: key = 'unlisted:collection:len'
+    what = '%s with %s on group %s with %d members: Pony gives %r, the comprehension gives %r' % (
+        len_qsrc(ws, hs, proj, fn), {('x%d' % i): v for i, v in sorted(params.items())}, g, len(members(graph, g)), got, want)
+    return Failure(key, what, {'len': {'ws': [L.to_json(e) for e in ws], 'hs': [L.to_json(e) for e in hs], 'proj': L.to_json(proj) if proj is not None else None, 'fn': fn,
+                                       'params': {str(i): v for i, v in params.items()}, 'graph': minimal_graph(graph, g)}})
+
+
+def _has_inline_count(x):
+    if isinstance(x, (list, tuple)):
+        if len(x) == 3 and x[0] == 'COUNT' and x[1] is True: return True
+        return any(_has_inline_count(y) for y in x if isinstance(y, (list, tuple)))
+    return False
+
+
+def len_raises(ws, hs, proj, params, graph, fn, ex):
+    """The database rejected the statement although every part is typed and Python evaluates the comprehension."""
+    if type(ex).__name__ not in ('OperationalError', 'ProgrammingError', 'DatabaseError'): return None
+    from pony import orm
+    db, P, G, D = J.get_db('sqlite')
+    key = 'unlisted:collection:len-raises:%s' % type(ex).__name__
+    try:
+        with orm.db_session:
+            t = orm.select(len_qsrc(ws, hs, proj, fn)[len('select('):-1], query_globals(G, params))._translator
+            # known only for the recorded cause: a *numeric* value that mentions the count, tested for truth
+            if any(_has_inline_count(c) for c in t.conditions) and any(L.ty_of(e) in ('int', 'bool') for e in hs): key = 'aggregate-truth-test-lands-in-where'
+    except Exception:
+        pass
+    what = '%s with %s: the database rejects the statement (%s: %s); Python evaluates the comprehension' % (
+        len_qsrc(ws, hs, proj, fn), {('x%d' % i): v for i, v in sorted(params.items())}, type(ex).__name__, str(ex)[:80])
+    g = graph['G'][0]
+    return Failure(key, what, {'len': {'ws': [L.to_json(e) for e in ws], 'hs': [L.to_json(e) for e in hs], 'proj': L.to_json(proj) if proj is not None else None, 'fn': fn,
+                                       'params': {str(i): v for i, v in params.items()}, 'graph': minimal_graph(graph, g)}})
+
+
+def len_search(ctx, queries, real, max_per_key=1):
+    failures, seen, evals, nontriv = [], {}, 0, set()
+    dist = {'queries': 0, 'pony_raises': {}, 'failing_groups_by_key': seen}
+    for k, (ws, hs, proj, params) in enumerate(queries):
+        fn = ('len', 'count')[k % 2]
+        dist['queries'] += 1
+        try:
+            bad = check_len_query(real, ws, hs, proj, params, fn)
+        except Exception as ex:
+            n = type(ex).__name__; dist['pony_raises'][n] = dist['pony_raises'].get(n, 0) + 1
+            f = len_raises(ws, hs, proj, params, real.graph, fn, ex)
+            if f is not None:
+                seen[f.key] = seen.get(f.key, 0) + 1
+                if seen[f.key] <= max_per_key: failures.append(f)
+            continue
+        evals += len(real.graph['G'])
+        if not bad: nontriv.add(len_qsrc(ws, hs, proj, fn))
+        for g, mode, got, want in bad:
+            f = len_failure(ws, hs, proj, params, real.graph, g, mode, got, want, fn)
+            seen[f.key] = seen.get(f.key, 0) + 1
+            if seen[f.key] <= max_per_key: failures.append(f)
+    return evals, failures, nontriv, dist
+
+
+def replay_len(d):
+    ws = [L.from_json(e) for e in d['ws']]; hs = [L.from_json(e) for e in d['hs']]
+    proj = L.from_json(d['proj']) if d['proj'] is not None else None
+    params = {int(k): v for k, v in d['params'].items()}
+    real = J.RealGraph(d['graph'])
+    try:
+        bad = check_len_query(real, ws, hs, proj, params, d.get('fn', 'len'))
+    except Exception as ex:
+        return len_raises(ws, hs, proj, params, d['graph'], d.get('fn', 'len'), ex)
+    if not bad: return None
+    g, mode, got, want = bad[0]
+    return len_failure(ws, hs, proj, params, d['graph'], g, mode, got, want, d.get('fn', 'len'))
